@@ -75,6 +75,10 @@ Lemma Forall2_map_both {A B C D} (Q : C -> D -> Prop) (f : A -> C) (g : B -> D) 
   Forall2 (fun a b => Q (f a) (g b)) l l' -> Forall2 Q (map f l) (map g l').
 Proof. intros H. induction H; cbn; constructor; assumption. Qed.
 
+Lemma Forall2_imp {A B} (R Q : A -> B -> Prop) l l' :
+  (forall a b, R a b -> Q a b) -> Forall2 R l l' -> Forall2 Q l l'.
+Proof. intros HRQ H. induction H; constructor; auto. Qed.
+
 Lemma Forall2_seq_nth {A} (pre s : list A) :
   Forall2 (fun x a => nth_error (pre ++ s) x = Some a) (seq (List.length pre) (List.length s)) s.
 Proof.
@@ -320,10 +324,14 @@ Section Product.
   Corollary to_vec_ok ss : to_vec ss = Ok (product ss).
   Proof. apply collect_ok. lia. Qed.
 
-  (* index vectors and items: the product of the index sets, read through the sets, is the
-     product of the sets *)
+  (* index vectors and items: [sel ss p it] = reading the sets at the index vector p gives it *)
+  Inductive sel : list (list A) -> list nat -> list A -> Prop :=
+  | sel_nil : sel [] [] []
+  | sel_cons s ss j p a it : nth_error s j = Some a -> sel ss p it -> sel (s :: ss) (j :: p) (a :: it).
+
+  (* the product of the index sets, read through the sets, is the product of the sets *)
   Lemma product_index_rel ss :
-    Forall2 (fun p it => pick_all ss p = Ok it) (product (index_sets (dims_of ss))) (product ss).
+    Forall2 (sel ss) (product (index_sets (dims_of ss))) (product ss).
   Proof.
     induction ss as [|s ss IH]; [repeat constructor|].
     cbn [dims_of map index_sets]. fold (dims_of ss). fold (index_sets (dims_of ss)).
@@ -331,7 +339,19 @@ Section Product.
     apply (Forall2_flat_map _ _ _ _ _ _ IH). intros tl it Htl.
     apply Forall2_map_both.
     pose proof (Forall2_seq_nth [] s) as Hs. cbn [List.length app] in Hs.
-    eapply Forall2_impl; [|exact Hs]. intros x a Hx. cbn [pick_all]. rewrite Hx, Htl. reflexivity.
+    eapply Forall2_imp; [|exact Hs]. intros x a Hx. constructor; assumption.
+  Qed.
+
+  Lemma product_nonempty ss : existsb is_nil ss = false -> product ss <> [].
+  Proof.
+    intros H E. pose proof (product_length ss) as HL. rewrite E in HL. cbn in HL.
+    induction ss as [|s ss IH]; [cbn in HL; lia|].
+    cbn [existsb] in H. apply orb_false_elim in H. destruct H as [Hs H].
+    change (total (s :: ss)) with (List.length s * total ss) in HL.
+    destruct s; [discriminate|]. cbn in HL.
+    apply IH; [exact H | | lia].
+    destruct (product ss) eqn:Ep; [reflexivity|]. exfalso.
+    pose proof (product_length ss) as HL2. rewrite Ep in HL2. cbn in HL2. lia.
   Qed.
 End Product.
 
